@@ -1,6 +1,6 @@
 """Per-property decision procedures (DESIGN.md section 7)."""
 import itertools, json
-from . import core, run
+from . import core, run, streams
 from .core import log
 
 OPTS0 = dict(html=False, radix=False, ignf=False)
@@ -119,6 +119,38 @@ def c04(ctx):
              "byte strings; non-trivial = more than 3 bytes.",
         nontrivial=lambda c: len(c["doc"]) > 3,
         assumptions=TCB + ["decimal -> binary64 rounding of number literals is taken from math/big (harness num.go), not from the specification"])
+
+
+def gen_events(ctx, quick=None, ext=True, docs=1, name="GenEvents"):
+    q = ctx.quick if quick is None else quick
+    consts = dict(MaxEvents=6 if q else 7, MaxDepth=2 if q else 3, MaxRich=1, MaxDocs=docs, WithExt=ext)
+    rows = core.tlc_generate(ctx, "GenEvents", consts, ["PrefixOK", "CompleteBalanced"], name=name)
+    return [r["stream"] for r in rows]
+
+
+ALL_OPTS = [dict(html=h, radix=r, ignf=i) for h in (False, True) for r in (False, True) for i in (False, True)]
+
+
+def stream_cases(ctx, prop, kind, shapes, fmts=("json", "ubjson", "cborl")):
+    rnd = ctx.rng
+    cases = []
+    nf = 1 if ctx.quick else 3
+    n = 0
+    for shape in shapes:
+        for st in streams.fills(shape, nf, rnd):
+            for fmt in fmts:
+                if fmt == "json":
+                    opts = [ALL_OPTS[n % 8]] if ctx.quick else ALL_OPTS
+                else:
+                    opts = [dict(OPTS0)]
+                for o in opts:
+                    cases.append(case(prop, kind, fmt, stream=st, opts=dict(o), origin="GenEvents"))
+                n += 1
+    return number(cases)
+
+
+def stream_nontrivial(c):
+    return len(c["stream"]) > 1 or c["stream"][0]["k"] in ("xarr", "xobj")
 
 
 # ---------------------------------------------------------------- C03
@@ -268,7 +300,132 @@ def c02(ctx):
         assumptions=TCB + ["observations of the schedules of one document are grouped by equality in the harness; every distinct observation is compared with the baseline by the specification"])
 
 
+# ---------------------------------------------------------------- C07 / C01
+
+def c07(ctx):
+    shapes = gen_events(ctx)
+    cases = stream_cases(ctx, "C07", "encode", shapes)
+    tf, st = core.run_harness(ctx, cases)
+    failed, n = core.tlc_validate(ctx, "TraceCodec", tf)
+    return run.decide(
+        ctx, "TraceCodec", cases, tf, failed, n, level_note="",
+        rule="TLC enumerates every well-formed event-stream shape admitted by the Visitor contract machine (GenEvents) within the bounds "
+             "in coverage.generators (announced/unknown lengths, announced element types, all 17 scalar families, all 29 extended events "
+             "with 0/1/2 elements, by-ref strings/keys, empty/non-ASCII/duplicate keys); scalar slots are filled from the boundary tables "
+             "(every table entry for single-slot streams, rotating + seeded otherwise) x {json under its option settings, ubjson, cborl}; "
+             "the real encoder's bytes are decoded by the TLA+ reference automaton of the format (independent decoder) and the value "
+             "compared with the stream's. Distinct = distinct (stream, format, options); non-trivial = more than one event or an extended event.",
+        nontrivial=stream_nontrivial,
+        assumptions=TCB + ["JSON float tokens are related to binary values through the math/big number table"])
+
+
+def c01(ctx):
+    shapes = gen_events(ctx)
+    cases = stream_cases(ctx, "C01", "roundtrip", shapes)
+    tf, st = core.run_harness(ctx, cases)
+    failed, n = core.tlc_validate(ctx, "TraceCodec", tf)
+    return run.decide(
+        ctx, "TraceCodec", cases, tf, failed, n, level_note="",
+        rule="event streams as for C07 (TLC-enumerated shapes x boundary slot tables x formats x JSON options); each stream is written by "
+             "the real encoder and the bytes are parsed by the same format's real parser; TraceCodec requires the parsed events to be a "
+             "well-formed stream denoting the same value under exactly the representation rules the property lists. Distinct = distinct "
+             "(stream, format, options); non-trivial = more than one event or an extended event.",
+        nontrivial=stream_nontrivial,
+        assumptions=TCB + ["float32/float64 <-> decimal relation (JSON) is decided through derived fields computed by the projection with math/big"])
+
+
+# ---------------------------------------------------------------- C08
+
+def is_container_doc(fmt, doc):
+    b = doc[0]
+    if fmt == "json":
+        return b in (0x5b, 0x7b)
+    if fmt == "ubjson":
+        return b in (0x5b, 0x7b)
+    return (b >> 5) in (4, 5)
+
+
+def c08(ctx):
+    rnd = ctx.rng
+    cases = []
+    per = 1500 if ctx.quick else 20000
+    n = 0
+    for src in ("cborl", "ubjson", "json"):
+        rows = [r for r in GENS[src](ctx, "lang") if r["class"] == "complete" and len(r["doc"]) >= 1]
+        rnd.shuffle(rows)
+        docs = [r["doc"] for r in rows[:per]]
+        conts = [d for d in (r["doc"] for r in rows) if is_container_doc(src, d)]
+        sep = [0x20] if src == "json" else []
+        for _ in range(per // 5):
+            k = rnd.choice([2, 2, 3])
+            parts = [rnd.choice(conts) for _ in range(k)]
+            d = []
+            for j, p in enumerate(parts):
+                d += p + (sep if rnd.random() < 0.5 else [])
+            docs.append(d)
+        for doc in docs:
+            for tgt in ("json", "ubjson", "cborl"):
+                entry = ["parse", "reader", "write"][n % 3]
+                kw = sched_variants(ctx, doc, entry, rnd)
+                opts = dict(ALL_OPTS[n % 8]) if tgt == "json" else dict(OPTS0)
+                cases.append(case("C08", "transcode", src, tgt=tgt, doc=doc, entry=entry, opts=opts, origin="Gen %s" % src, **kw))
+                n += 1
+    number(cases)
+    tf, st = core.run_harness(ctx, cases)
+    failed, nv = core.tlc_validate(ctx, "TraceCodec", tf)
+    return run.decide(
+        ctx, "TraceCodec", cases, tf, failed, nv, level_note="",
+        rule="valid source documents enumerated by TLC from each format automaton (incl. shapes only foreign encoders produce: non-minimal "
+             "CBOR widths, byte strings, UBJSON typed containers/H/C, JSON escapes and 64-bit boundary numbers), single and as concatenated "
+             "streams of 2-3 container documents, x 3 targets, fed through Parse / ParseReader with short reads / bytewise Write into the "
+             "real target encoder; TraceCodec decodes source and target bytes with the two reference automata and compares the values "
+             "under the target's representation rules. Distinct = distinct (document, pair, entry, chunking); non-trivial = at least 3 bytes.",
+        nontrivial=lambda c: len(c["doc"]) >= 3,
+        assumptions=TCB)
+
+
+# ---------------------------------------------------------------- C10
+
+def has_ext(shape):
+    return any(a["k"] in ("xarr", "xobj") or a["ty"] in ("strref", "keyref") for a in shape)
+
+
+def c10(ctx):
+    rnd = ctx.rng
+    # two documents per stream: whatever follows the extended event is part of the comparison
+    shapes = [s for s in gen_events(ctx, docs=2, name="GenEvents-2docs") if has_ext(s)]
+    if ctx.quick and len(shapes) > 6000:
+        rnd.shuffle(shapes)
+        single = [s for s in shapes if len(s) <= 3]
+        shapes = single + [s for s in shapes if len(s) > 3][: 6000 - len(single)]
+    cases = []
+    n = 0
+    for shape in shapes:
+        for st in streams.fills(shape, 1 if ctx.quick else 3, rnd):
+            for cons in ("json", "ubjson", "cborl", "plain"):
+                opts = dict(ALL_OPTS[n % 8]) if cons == "json" else dict(OPTS0)
+                cases.append(case("C10", "extcmp", cons if cons != "plain" else "json", stream=st, opts=opts, sub=dict(consumer=cons), origin="GenEvents"))
+                n += 1
+    number(cases)
+    tf, st = core.run_harness(ctx, cases)
+    failed, nv = core.tlc_validate(ctx, "TraceCodec", tf)
+    return run.decide(
+        ctx, "TraceCodec", cases, tf, failed, nv, level_note="",
+        rule="TLC-enumerated two-document streams (GenEvents, MaxDocs=2) that contain an extended array/map event (all 29 kinds, 0/1/2 "
+             "elements) or a by-reference string/key at every structural position (top level, first/middle/last element or member, "
+             "nested, announced and unknown lengths), followed by further events and a second document; each consumer (3 real encoders, "
+             "and a plain Visitor behind EnsureExtVisitor) is driven with the extended call and with its expansion; TraceCodec checks "
+             "that the driver's expansion is SFEvents!ExpandAll, that both outputs decode (reference automaton) to the stream's value, "
+             "and that the depth accessors agree. Distinct = distinct (stream, consumer); non-trivial = more than one event.",
+        nontrivial=lambda c: len(c["stream"]) > 1,
+        assumptions=TCB + ["the unfolder as a consumer of extended events is covered by C13's streams, not here"])
+
+
 PROPS = {
+    "C10": c10,
+    "C08": c08,
+    "C07": c07,
+    "C01": c01,
     "C02": c02,
     "C03": c03,
     "C04": c04,
